@@ -35,6 +35,7 @@ type Task struct {
 	Guard string     `json:"guard,omitempty"` // none platform requires enum precond prompt internal uptodate
 	VUse  string     `json:"vuse,omitempty"`  // where V reaches in a when_changed task: cmd (default) | env | sub
 	Label bool       `json:"label,omitempty"` // the task carries a label templated with the call variables (no effect on semantics)
+	Src   bool       `json:"src,omitempty"`   // the task has sources (fingerprinted); only for tasks that run once per invocation
 }
 
 type Root struct {
@@ -138,12 +139,18 @@ func otherPlatforms() string {
 }
 
 // callVars renders the vars: mapping of a call site. kind is "d" or "c", idx the declared index (1-based).
-func callVars(p *Program, self string, st *Task, cs *CallSite, kind string, idx int) string {
+func callVars(p *Program, self string, st *Task, cs *CallSite, kind string, idx int, itemVar string) string {
+	item := func(mat [][]string) string {
+		if len(mat) == 0 && itemVar != "" {
+			return "{{." + itemVar + "}}"
+		}
+		return itemExpr(mat)
+	}
 	var parts []string
 	callee := p.Tasks[cs.Task]
 	suffix := fmt.Sprintf(".%s%d", kind, idx)
 	if len(cs.For) > 0 || len(cs.Mat) > 0 {
-		suffix += "_" + itemExpr(cs.Mat)
+		suffix += "_" + item(cs.Mat)
 	}
 	if callee != nil && callee.run() != "when_changed" {
 		parts = append(parts, "P: "+yq(pexpr(self, st)+suffix))
@@ -152,7 +159,7 @@ func callVars(p *Program, self string, st *Task, cs *CallSite, kind string, idx 
 	// would otherwise be different "sets of variable values" for run: when_changed
 	switch {
 	case len(cs.For) > 0 || len(cs.Mat) > 0:
-		parts = append(parts, "V: '"+itemExpr(cs.Mat)+"'", "W: ''")
+		parts = append(parts, "V: '"+item(cs.Mat)+"'", "W: ''")
 	case cs.V == "$":
 		parts = append(parts, "V: '{{.V}}'", "W: '{{.W}}'")
 	case strings.Contains(cs.V, "+"):
@@ -267,6 +274,9 @@ func (p *Program) render(file string) string {
 		if t.Label {
 			b.WriteString("    label: 'label {{.V}}-{{.W}}'\n")
 		}
+		if t.Src {
+			b.WriteString("    method: checksum\n    sources: ['Taskfile.yml']\n")
+		}
 		switch t.guard() {
 		case "platform":
 			b.WriteString("    platforms: " + otherPlatforms() + "\n")
@@ -294,7 +304,10 @@ func (p *Program) render(file string) string {
 		// split at commas (rendering variants chosen by position; the specification speaks of the list of items)
 		outer := &b
 		var loopVars []string
+		asV := false    // set by the caller of forOf for loops over task calls: the iterator may be named like the variable V
+		itemVar := ""   // set by forOf: the name of the iterator of the loop just rendered ("" = ITEM)
 		forOf := func(list []string, mat [][]string) string {
+			itemVar = ""
 			if len(mat) > 0 {
 				return matYAML(mat)
 			}
@@ -305,10 +318,19 @@ func (p *Program) render(file string) string {
 				}
 			}
 			k := len(loopVars) + 1
-			switch style := (len(full) + k + len(list)) % 3; {
+			switch style := (len(full) + k) % 3; {
+			case simple && style == 1 && asV:
+				// the iterator is named V although a variable V is visible: inside the loop the item wins
+				loopVars = append(loopVars, fmt.Sprintf("FL%d: %s", k, yq(strings.Join(list, " "))))
+				itemVar = "V"
+				return fmt.Sprintf("{var: FL%d, as: V}", k)
 			case simple && style == 1:
 				loopVars = append(loopVars, fmt.Sprintf("FL%d: %s", k, yq(strings.Join(list, " "))))
 				return fmt.Sprintf("{var: FL%d}", k)
+			case simple && style == 2 && asV:
+				loopVars = append(loopVars, fmt.Sprintf("FL%d: %s", k, yq(strings.Join(list, ","))))
+				itemVar = "V"
+				return fmt.Sprintf("{var: FL%d, split: ',', as: V}", k)
 			case simple && style == 2:
 				loopVars = append(loopVars, fmt.Sprintf("FL%d: %s", k, yq(strings.Join(list, ","))))
 				return fmt.Sprintf("{var: FL%d, split: ','}", k)
@@ -322,14 +344,16 @@ func (p *Program) render(file string) string {
 			for j, d := range t.Deps {
 				d := d
 				if len(d.For) > 0 || len(d.Mat) > 0 {
+					asV = t.run() != "when_changed"
 					fmt.Fprintf(&b, "      - for: %s\n        task: %s\n", forOf(d.For, d.Mat), yq(p.refIn(file, d.Task)))
-					if v := callVars(p, name, t, &d, "d", j+1); v != "" {
+					asV = false
+					if v := callVars(p, name, t, &d, "d", j+1, itemVar); v != "" {
 						fmt.Fprintf(&b, "        %s\n", v)
 					}
 					continue
 				}
 				fmt.Fprintf(&b, "      - task: %s\n", yq(p.refIn(file, d.Task)))
-				if v := callVars(p, name, t, &d, "d", j+1); v != "" {
+				if v := callVars(p, name, t, &d, "d", j+1, ""); v != "" {
 					fmt.Fprintf(&b, "        %s\n", v)
 				}
 			}
@@ -376,16 +400,19 @@ func (p *Program) render(file string) string {
 					}
 				case "call":
 					if len(c.CS.For) > 0 || len(c.CS.Mat) > 0 {
+						asV = t.run() != "when_changed"
 						fmt.Fprintf(&b, "      - for: %s\n        task: %s\n", forOf(c.CS.For, c.CS.Mat), yq(p.refIn(file, c.CS.Task)))
+						asV = false
 					} else {
+						itemVar = ""
 						fmt.Fprintf(&b, "      - task: %s\n", yq(p.refIn(file, c.CS.Task)))
 					}
-					if v := callVars(p, name, t, c.CS, "c", idx); v != "" {
+					if v := callVars(p, name, t, c.CS, "c", idx, itemVar); v != "" {
 						fmt.Fprintf(&b, "        %s\n", v)
 					}
 				case "dcall":
 					fmt.Fprintf(&b, "      - defer: {task: %s", yq(p.refIn(file, c.CS.Task)))
-					if v := callVars(p, name, t, c.CS, "c", idx); v != "" {
+					if v := callVars(p, name, t, c.CS, "c", idx, ""); v != "" {
 						fmt.Fprintf(&b, ", %s", v)
 					}
 					b.WriteString("}\n")
